@@ -8,39 +8,39 @@ CHECKS = {
    note="Trusted: refimpl (independent re-implementation from the published algorithms), rustc. &str API restricts reachable bytes (stated in evidence)."),
 }
 CHECKS["C01"]=dict(cat="exploration", engine="xplore", design="DESIGN.md §3 C01",
-   technique="bounded-exhaustive enumeration of the full builder-configuration product x content classes, each built with the real ArchiveBuilder and read back through the real Archive under every name spelling, judged against the added (name, bytes) list",
+   technique="bounded-exhaustive enumeration of the full builder-configuration product x content classes, of per-file option mixes inside one archive, and of a file-count ladder (0..1025, thorough ..8193) x version x listfile x table compression x attributes x crypto; each archive built with the real ArchiveBuilder and read back through the real Archive under every name spelling, judged against the added (name, bytes) list",
    text="Every tuple of the configuration product (version x sector shift x compression x crypto x sector CRC x attributes x listfile x table compression) x content texture is built and read back on the real code; file lengths sit on every sector boundary and names are forced to collide in the hash table. Exhaustive over the stated axes; nothing is claimed outside them.",
    note="Trusted: the generator's ground truth (names, bytes). Lossy ADPCM selectors judged on length only. build() returning Err is an accepted refusal.")
 CHECKS["C03"]=dict(cat="exploration", engine="xplore", design="DESIGN.md §3 C03",
-   technique="bounded-exhaustive enumeration of selector x input families (all short strings over boundary alphabets, run-length families around 0x80/0x81/0xFF, size ladder x textures) through the real compress/decompress/decompress_secure",
-   text="Each (selector, input) of the enumerated families is compressed and decompressed by the real code under default SecurityLimits; oracle = identity, never-expands, raw-or-prefixed form. Exhaustive within the families; inputs up to 2^17 (quick) / 2^21 (thorough).",
+   technique="bounded-exhaustive enumeration of selector x input families (all short strings over boundary alphabets, run-length families around 0x80/0x81/0xFF, break-even sweeps, size ladder x textures; thorough: every length to 1100, ladder to 2^23, all 256 method bytes) through the real compress/decompress/decompress_secure; ADPCM: every pair of per-channel step signals as stereo and each alone as mono",
+   text="Each (selector, input) of the enumerated families is compressed and decompressed by the real code under default SecurityLimits; oracle = identity, never-expands, raw-or-prefixed form. Exhaustive within the families; inputs up to 2^17 (quick) / 2^23 (thorough); 'not shrunk => stored raw' is an oracle of its own.",
    note="Compressor refusals (Err) are accepted and counted. ADPCM judged on length and channel sides only.")
 CHECKS["C02"]=dict(cat="exploration", engine="xplore", design="DESIGN.md §3 C02",
-   technique="bounded-exhaustive differential enumeration: every configuration of the published MPQ subset x content classes is written by one implementation and read by the other (library vs independent refimpl::mpqref), both directions",
+   technique="bounded-exhaustive differential enumeration: every configuration of the published MPQ subset x content classes is written by one implementation and read by the other (library vs independent refimpl::mpqref), both directions; thorough adds V3/V4 headers (classic tables), sector checksums in the published layout (each side verifies the other's checksum sector, raw and compressed), (attributes), user-data prefix, deleted hash slots",
    text="Full product of the published-subset axes (V1/V2, shifts, none/zlib/bzip2, plain/encrypted/fix-key, single-unit, hash sizes, listfile) x 6 textures; each archive carries files on every sector-boundary length under colliding, directory-nested names and is cross-read bit for bit. The independent side breaks the same-code-on-both-sides symmetry of self round-trips (it found the full-path file key, the trailing-dword cipher step and whole-file decryption of uncompressed multi-sector files).",
    note="Trusted: refimpl::mpqref (independent reader/writer written from the published format; zlib/bzip2 streams via flate2/bzip2 crates).")
 CHECKS["C16"]=dict(cat="exploration", engine="xplore", design="DESIGN.md §3 C16",
-   technique="bounded-exhaustive enumeration of (target encoding x image size) x pixel classes x mipmap settings through the real image_to_blp/encode_blp/parse_blp/blp_to_image, judged by structural equality, an independent byte-level header/offset walker and an independent RAW1/RAW3 decoder",
+   technique="bounded-exhaustive enumeration of (target encoding x image size) x pixel classes x mipmap settings (thorough: 2633 sizes up to 65535-long strips, 37 targets, 9 pixel classes, and chained conversions through blp_to_image) through the real image_to_blp/encode_blp/parse_blp/blp_to_image, judged by structural equality, an independent byte-level header/offset walker and an independent RAW1/RAW3 decoder",
    text="Every (target, size) pair of the stated grids (all sizes 1..9/15..17/31..33 squared in quick, 1..33 squared plus powers of two and odd shapes in thorough) x 5 pixel classes x mip settings is encoded and parsed by the real code; an independent walker written from the format documentation checks header, offset table, mip chain and lossless pixels.",
    note="Trusted: props/c16/src/refblp.rs (independent walker/decoder), the image crate for JPEG level decode. Lossy encodings judged on structure only.")
 CHECKS["C17"]=dict(cat="exploration", engine="xplore", design="DESIGN.md §3 C17",
-   technique="bounded-exhaustive enumeration of all schemas up to 3 (quick) / 4 (thorough) fields over the field-kind alphabet x key positions x record-set classes, each written by the real DbcWriter and read through every real access path, judged against an independent DBC emitter/reader",
+   technique="bounded-exhaustive enumeration of all schemas up to 3 (quick) / 4-5 (thorough) fields over the field-kind alphabet, field-count ladder to 24, array/string/record-count ladders, WDB2/WDB5 containers x key positions x record-set classes, each written by the real DbcWriter and read through every real access path, judged against an independent DBC emitter/reader",
    text="Every schema of the bounded alphabet with every key option and record-count/key-order/string-layout class is emitted by an independent emitter, parsed, rewritten by the real writer and re-read through eager, lazy, mmap and parallel paths (several pool sizes) and all key-lookup methods; values, sizes, string de-duplication and path agreement are compared.",
    note="Trusted: props/c17/src/dbcref.rs (independent emitter/reader from the documented DBC layout). The parallel path is additionally run under loom with the rayon stand-in (props-sh/c17.sh, harness-sched/c17p): every interleaving of its chunk tasks up to the preemption bound.")
 CHECKS["C18"]=dict(cat="exploration", engine="xplore", design="DESIGN.md §3 C18",
-   technique="bounded-exhaustive enumeration of tile grids (incl. each of the 4096 single tiles) x flags x optional chunks x versions x conversion pairs through the real WDT/WDL writers, readers and converters, plus all 4096 tile indices for the coordinate maps, judged by field equality, byte-identical second write and an independent chunk walker",
+   technique="bounded-exhaustive enumeration of tile grids (incl. each of the 4096 single tiles) x flags (thorough: all 65536 MPHD words) x optional chunks x versions x conversion pairs and A->B->C chains, every state of a 9-tile universe for WDL, through the real WDT/WDL writers, readers and converters, plus all 4096 tile indices for the coordinate maps, judged by field equality, byte-identical second write and an independent chunk walker",
    text="All 4096 tile indices for the coordinate inversion; every grid/flag/version/object-shape combination of the stated axes for WDT and WDL is written, walked by an independent chunk walker (index order, MAOF targets), read back, rewritten and converted between all version pairs.",
    note="Trusted: props/c18/src/walker.rs (independent walker from the format docs). Derived fields (re-detected version, aliased MPHD words) excluded from equality.")
 CHECKS["C13"]=dict(cat="exploration", engine="xplore", design="DESIGN.md §3 C13",
-   technique="deviation-bounded exhaustive enumeration (all models within <=2 (quick) / <=3 (thorough) section deviations of an all-empty and an all-populated baseline x header versions x all 25 conversion pairs; byte-level seed files with key frames; skin and anim layouts) through the real writer/parser/converter, judged by an independent container walker and field decoder, content equality and byte-identical rewrite",
+   technique="deviation-bounded exhaustive enumeration (all models within <=2 (quick) / <=3 (thorough) section deviations of an all-empty and an all-populated baseline x header versions x all 25 conversion pairs; byte-level seed files with key frames, also with key-frame arrays shared between tracks; thorough: conversion chains over all 125 version triples, load-edit-save, 300/65537-element sections; skin and anim layouts) through the real writer/parser/converter, judged by an independent container walker and field decoder, content equality and byte-identical rewrite",
    text="Every model within the deviation bound over 29 sections x population levels x 8 header numbers, every (from,to) conversion pair, every seed subset, skin layout and anim shape is written, walked by an independent decoder, parsed, rewritten and converted on the real code.",
    note="Trusted: props/c13 walker/indep/emit modules (independent of the crate). Derived offsets are masked in content comparison.")
 CHECKS["C15"]=dict(cat="exploration", engine="xplore", design="DESIGN.md §3 C15",
-   technique="deviation-bounded exhaustive enumeration (roots over 11 sites and groups over 10 sites within <=3/<=4 deviations of empty and full baselines x 5 versions; all 25 conversion pairs) through the real WmoWriter/WmoParser/parse_wmo/WmoConverter, judged by an independent chunk walker, per-field content equality and byte-identical second write",
+   technique="deviation-bounded exhaustive enumeration (roots over 11 sites and groups over 10 sites within <=3/<=4 deviations of empty and full baselines x 5 versions; all 25 conversion pairs; thorough: full products of the quick levels, every list length 0..300, A->B->C conversion chains, every WmoEditor operation sequence up to length 4) through the real WmoWriter/WmoParser/parse_wmo/WmoConverter/WmoEditor, judged by an independent chunk walker, per-field content equality and byte-identical second write",
    text="Every root/group within the deviation bound x version, and every conversion pair, is written, walked by an independent chunk walker (tiling, counts, string-offset tables), parsed by both parsers and rewritten on the real code.",
    note="Trusted: props/c15/src/walk.rs. Only fields with a counterpart in the parsed type are compared; derived fields excluded.")
 CHECKS["C14"]=dict(cat="exploration", engine="xplore", design="DESIGN.md §3 C14",
-   technique="deviation-bounded exhaustive enumeration of builder inputs (26 sites / 82 site values within <=2 (quick) / <=3 (thorough) deviations of a minimal, a full and a staggered baseline x 6 versions) through the real AdtBuilder/serialiser/parse_adt and 3 rounds of parse->rebuild on two paths, judged by an independent chunk walker (tiling, MHDR/MCIN/MCNK offset tables), content equality with the input and no-growth/fixed-point relations",
+   technique="deviation-bounded exhaustive enumeration of builder inputs (27 sites / 86 core site values within <=2 (quick) / <=3 (thorough) deviations of a minimal, a full and a staggered baseline x 6 versions; thorough: 121 values, full products of the per-chunk and top-level sites, conversions between all versions) through the real AdtBuilder/serialiser/parse_adt and 3 rounds of parse->rebuild on two paths, judged by an independent chunk walker (tiling, MHDR/MCIN/MCNK offset tables), content equality with the input and no-growth/fixed-point relations",
    text="Every builder input within the deviation bound x version is built, serialised, walked by an independent chunk walker, parsed and compared with the input; then parse->rebuild->serialise is iterated three times on both rebuild paths and checked for content stability and no growth.",
    note="Trusted: props/c14/src/walker.rs. Both documented conventions for MCIN sizes / sub-offset bases are accepted as long as a file sticks to one. Builder refusals (documented) are accepted.")
 CHECKS["C06"]=dict(cat="model_checking", engine="histbfs", design="DESIGN.md §3 C06",
@@ -48,11 +48,11 @@ CHECKS["C06"]=dict(cat="model_checking", engine="histbfs", design="DESIGN.md §3
    text="Bounded-exhaustive over operation histories from 6 (quick) / 20 (thorough) initial archives (V1..V4 x listfile x attributes from the real builder, plus independently written archives with 4- and 8-slot hash tables): every sequence of <=2 operations per epoch over a 28..93-event alphabet with colliding names, other-spelling names, four content classes and five add options, chained over 2-3 epochs through deduplicated archive states. Every transition is executed on the real code (no separate model to conform).",
    note="Trusted: the reference BTreeMap; refimpl::mpqref for small-table initial archives. Judged only after close+reopen. Known findings prune their successors (count in evidence).")
 CHECKS["C08"]=dict(cat="model_checking", engine="histbfs", design="DESIGN.md §3 C08",
-   technique="explicit-state search to closure over the model chain state (ordered (archive, priority, insertion rank) lists over 4 archives x 3 priorities), every enabled event executed on a real PatchChain rebuilt by history replay and every pool name looked up against the model; plus exhaustive enumeration of COPY/BSD0 patch files from an independent encoder (well-formed and every field/payload byte altered) read through a real base+patch chain",
+   technique="explicit-state search to closure over the model chain state (ordered (archive, priority, insertion rank) lists over 4 archives x 3 priorities), every enabled event executed on a real PatchChain rebuilt by history replay and every pool name looked up against the model; plus exhaustive enumeration of COPY/BSD0 patch files from an independent encoder (well-formed and every field/payload byte altered) read through a real base+patch chain, and of stacks of 2 (thorough 3) patches / full replacements over 5 file versions incl. patches made against the wrong predecessor",
    text="The chain state space is finite and explored to closure (10k states, 136k transitions in quick): add/remove/set_priority/clear/parallel add/parallel constructors from every reachable state, each executed on the real PatchChain and compared (read_file, contains_file, find_file_archive, list) with a stable-sorted reference list. Patch application: all control programs of <=2 triples over boundary values x 4 base files, plus every 32-bit header field x 8 boundary values and every payload byte x 2 flips; Ok results must match the declared digest.",
    note="Trusted: refimpl::ptch (independent PTCH/BSD0/RLE encoder and reference applier), refimpl::mpqref (patch-flagged entries), MD5. Tie order after set_priority accepts both readings.")
 CHECKS["C09"]=dict(cat="model_checking", engine="sched", design="DESIGN.md §3 C09, §2 E3",
-   technique="stateless exploration under a controlled scheduler: wow-mpq compiled against a loom-backed rayon stand-in, every interleaving of task claim/start/finish up to preemption bound 2 (quick) / 3 (thorough) executed on the real extraction entry points and compared with sequential reads; plus an exhaustive configuration sweep (threads x batch x list length x skip x missing position) on the real rayon",
+   technique="stateless exploration under a controlled scheduler: wow-mpq compiled against a loom-backed rayon stand-in, every interleaving of task claim/start/finish (three read-modify-write operations on shared loom atomics per task) up to preemption bound 2 (quick) / 3 (thorough), 1..3 (thorough 1..4) workers, executed on the real extraction entry points and compared with sequential reads; plus an exhaustive configuration sweep (threads x batch x list length x skip x missing position) on the real rayon",
    text="Schedules: 641 cases (10 entry points x request lists from {p,q,duplicate,missing,unreadable} in every order x skip x workers 1..3) each run under loom::model; 165k schedules in quick; every schedule's result is compared slot-by-slot with Archive::read_file and the result set per case must be a singleton. Configurations: the full 7x5x9x2x4 product on real rayon decides the configuration clause.",
    note="Trusted: loom; the rayon contract modelled by /verif/harness-sched/rayon. Code between loom operations is atomic to the explorer (data races inside a task body are out of reach).")
 CHECKS["C07"]=dict(cat="exploration", engine="xplore", design="DESIGN.md §3 C07",
@@ -60,28 +60,28 @@ CHECKS["C07"]=dict(cat="exploration", engine="xplore", design="DESIGN.md §3 C07
    text="Every (source, option tuple) pair of the stated product is rebuilt on the real code; the expected file set comes from the generator, the target is read back bit for bit, excluded files must be absent, summary counts must be truthful, and compare_archives must report no content difference.",
    note="Trusted: generator ground truth, refimpl::mpqref census. Err without a target is an accepted refusal.")
 CHECKS["C10"]=dict(cat="fault_enumeration", engine="xplore", design="DESIGN.md §3 C10",
-   technique="exhaustive single-fault enumeration: every byte offset of every protected region (file data, sector offset/CRC tables, attributes arrays, V4 header/table digests and digested tables, signed bytes and signature) of a catalogue of small archives x fault values (bit flips, 0x00/0xFF, 2- and 4-byte overwrites), each faulted archive read and verified by the real library and C API in a forked child; all single-bit flips of signed buffers and signatures for the signature primitive",
+   technique="exhaustive single-fault enumeration: every byte offset of every protected region (file data, sector offset/CRC tables, attributes arrays, V4 header/table digests and digested tables, signed bytes and signature) of a catalogue of small archives x fault values (bit flips, 0x00/0xFF, 2- and 4-byte overwrites, 8/16-byte zero runs inside one file's protection domain), each faulted archive read and verified by the real library and C API in a forked child; all single-bit flips of signed buffers and signatures for the signature primitive",
    text="All protected byte offsets of 39 (quick) / 78 (thorough) archives covering 12 metadata kinds are faulted one at a time; the property's disjunction is judged exactly (violation only if a read returns Ok with altered content and every applicable verify operation still succeeds). Intact archives must verify everywhere.",
    note="Trusted: refimpl::mpqref layout map plus knowledge of the builder's layout for locating regions; faulted evaluations run in forked children with an address-space limit (abort/panic counts as failure reported).")
 CHECKS["C11"]=dict(cat="exploration", engine="xplore", design="DESIGN.md §3 C11",
-   technique="bounded-exhaustive enumeration of an entry-name grammar (components from {.., ., empty, a, B.txt, C:, con, 251 x, non-ASCII, blank} joined by either separator, with anchored absolute / drive prefixes, up to 2-3 components) x preserve-paths x patch-chain x whole/explicit extraction, each run through the real CLI in a fresh jail, observed by a recursive before/after snapshot and by the strace log of mutating path-taking system calls",
+   technique="bounded-exhaustive enumeration of an entry-name grammar (components from {.., ., empty, a, B.txt, C:, con, 251 x, non-ASCII, blank} joined by either separator, with anchored absolute / drive prefixes, up to 2-3 (thorough 3-4) components, plus the descend-then-climb family {..,a}^k B.txt) x preserve-paths x patch-chain x whole/explicit extraction, each run through the real CLI in a fresh jail, observed by a recursive before/after snapshot and by the strace log of mutating path-taking system calls",
    text="Every name of the grammar bound x 8 modes is extracted by the real binary from an archive written by the independent writer (names are not normalised); nothing outside out/ may be created or changed according to both observers. Only containment is judged.",
    note="Trusted: strace, the snapshot walker, refimpl::mpqref writer. The tool runs as an unprivileged uid inside the jail so an escape cannot leave the scratch directory.")
 CHECKS["C20"]=dict(cat="exploration", engine="xplore", design="DESIGN.md §3 C20",
-   technique="bounded-exhaustive enumeration of (file set x create options x extract options) round trips and of (sub-command template x seed file x damage class) for all 173 sub-command templates of every format family, each executed as a real CLI process and judged by five sound uniform rules against the in-process library view",
+   technique="bounded-exhaustive enumeration of (file set x create options x extract options) round trips (also through a patch chain, and at 1000/1001/1030 members where the extraction strategy changes), of `mpq list --filter` patterns, and of (sub-command template x seed file x damage class) for all 173 sub-command templates of every format family, each executed as a real CLI process and judged by five sound uniform rules against the in-process library view",
    text="Full product of create/extract options on 6-10 file sets (bit-identical round trip, list/info agree with the library); every sub-command x seed x damage class (nonexistent, empty, garbage, truncations, 0xFFFFFFFF fields, 0xFF windows): exit status must be non-zero where the rules demand it and every exit-0 output must exist and parse.",
    note="Trusted: the in-process library oracle for 'parse Ok', process exit codes. No rule is applied where 'what was asked' is ambiguous.")
 CHECKS["C12"]=dict(cat="fault_enumeration", engine="faultfs", design="DESIGN.md §3 C12, §2 E4",
-   technique="exhaustive crash-point and I/O-error enumeration on the real write path: the file-system calls of each write history (ArchiveBuilder::build V1..V4 x destination present/absent x payload; MutableArchive::compact) are recorded with strace, then the history is re-run once per (system call, k) with the process killed before the k-th call (strace inject signal=KILL) and with the k-th call failing with ENOSPC/EIO/EACCES, plus short-write caps via an LD_PRELOAD shim; after every run the destination is compared with its previous bytes and with the expected complete archive",
+   technique="exhaustive crash-point and I/O-error enumeration on the real write path: the file-system calls of each write history (ArchiveBuilder::build V1..V4 x destination present/absent x payload x optional writer stages; rebuild_archive; MutableArchive::compact) are recorded with strace (33 system calls incl. copy_file_range/sendfile/fchmod), then the history is re-run once per (system call, k) with the process killed before the k-th call (strace inject signal=KILL) and with the k-th call failing with ENOSPC/EIO/EACCES, plus short-write caps via an LD_PRELOAD shim; after every run the destination is compared with its previous bytes and with the expected complete archive",
    text="Every file-system call that touches the destination directory in every recorded history is a crash point and an error-injection point (1405 faulted runs in thorough); the destination must be byte-identical to its previous content (or absent) or open and read back every expected file; a build that returned Err must have left the previous state. Two fault-free recordings must issue the same call sequence.",
    note="Trusted: strace as injector/observer, kernel rename atomicity. Process death and I/O errors only (no power-loss block reordering: the code issues no fsync before rename). Temp litter tolerated and counted.")
 CHECKS["C05"]=dict(cat="exploration", engine="xplore", design="DESIGN.md §3 C05",
-   technique="deviation-bounded exhaustive enumeration over 124 valid seed files of all ten formats: every prefix length (strided above 4 KiB), every located 32-bit size/offset/count/flag field x 10 boundary values (incl. plaintext fields inside the encrypted MPQ tables, re-encrypted), chunk delete/duplicate/swap, and in thorough all pairs of header-level sites; each deviated input is fed to every public parse/open/list/read entry point in a forked child under a counting allocator with a hard cap, an alarm and signal handlers",
+   technique="deviation-bounded exhaustive enumeration over 124 (thorough 206) valid seed files of all ten formats: every prefix length (quick strided above 160 bytes, thorough every byte), every located 32-bit size/offset/count/flag field x 10 (thorough 20) boundary values (incl. plaintext fields inside the encrypted MPQ tables, re-encrypted), chunk delete/duplicate/swap (thorough: resizes, sibling pair swaps/deletes, trailing data), and in thorough all pairs of header-level sites plus all neighbouring pairs; each deviated input is fed to every public parse/open/list/read entry point in a forked child under a counting allocator with a hard cap, an alarm and signal handlers",
    text="Every 0- and 1-deviation input of the stated alphabet (147 k cases quick, 2.6 M thorough incl. 2-deviation pairs) is run through every public entry point of the MPQ, M2/skin/anim, ADT, WMO, BLP, DBC, WDT and WDL crates; monitors: no panic (overflow checks on), no abort/signal, no watchdog expiry, no single request or peak heap above 256 MiB + 4096 x input length.",
    note="Trusted: the forked-child sandbox and counting allocator (vcore::alloc); the independent chunk/structure maps used to locate fields. Allocation threshold sits above everything the library's documented limits allow.")
 PENDING={}
 CHECKS["C19"]=dict(cat="model_checking", engine="histbfs", design="DESIGN.md §3 C19",
-   technique="(threads) stateless exploration under loom: storm-ffi compiled with hook H1 so its Mutex/LazyLock/thread_local are loom's; 21 scenarios of 2-3 threads x 1-2 C-API calls on shared handles, all interleavings up to preemption bound 2/3, linearizability by differential against every sequential merge of the same calls; (sequential) explicit-state BFS over C-API call histories in forked children against a handle/cursor model and the Rust API",
+   technique="(threads) stateless exploration under loom: storm-ffi compiled with hook H1 so its Mutex/LazyLock/thread_local are loom's; 21 hand-written scenarios of 2-3 threads x 1-2 C-API calls plus every unordered pair of 21 read-only and 11 writable calls on shared handles (319 scenarios), all interleavings up to preemption bound 2/3, linearizability by differential against every sequential merge of the same calls; (sequential) explicit-state BFS over C-API call histories in forked children against a handle/cursor model and the Rust API",
    text="Threads: every interleaving of lock acquisitions for each scenario is executed on the real source; outcomes (return values + probes) must equal some sequential merge; no deadlock, panic or duplicate handle. Sequential: bounded-exhaustive call histories with stale/closed/null/forged handles and boundary buffer sizes, canaries on every buffer.",
    note="Trusted: loom, hook H1 facade (verif_sync). Code between two lock operations is atomic to the explorer; invalid pointers (as opposed to invalid handles/sizes) are the caller's contract.")
 NOT_APPLICABLE = {}
